@@ -14,6 +14,9 @@ import time
 import vbuild
 
 VERIF = vbuild.VERIF
+# evidence/ and replays/ normally live in /verif; mutant self-tests redirect them (VERIF_OUT) so that they never
+# overwrite the evidence of the real tree
+OUT = os.environ.get("VERIF_OUT", VERIF)
 REPO = vbuild.REPO
 NCPU = vbuild.NCPU
 
@@ -97,8 +100,8 @@ def crash_key(stderr_text, returncode):
             break
         m = re.match(r"^(\S+?):\d+:\d+: runtime error: (.+)$", l)
         if m and not _ADV.match(l):
-            what = re.sub(r"-?\d+(\.\d+)?(e[+-]?\d+)?", "N", m.group(2))
-            what = re.sub(r"0x[0-9a-f]+", "P", what)
+            what = re.sub(r"0x[0-9a-f]+", "P", m.group(2))
+            what = re.sub(r"-?\d+(\.\d+)?(e[+-]?\d+)?", "N", what)
             start, kind = i, "ubsan-" + re.sub(r"[^A-Za-z]+", "-", what).strip("-")[:60]
             break
         if "Assertion `" in l:
@@ -249,11 +252,11 @@ def run_check(pid, cfg, tier, seed, replay=None):
     rundir = os.path.join(vbuild.BUILD, "run", pid + "_" + tier)
     shutil.rmtree(rundir, ignore_errors=True)
     os.makedirs(rundir, exist_ok=True)
-    os.makedirs(os.path.join(VERIF, "evidence"), exist_ok=True)
-    os.makedirs(os.path.join(VERIF, "replays"), exist_ok=True)
-    for f in os.listdir(os.path.join(VERIF, "replays")):  # witnesses of earlier runs of this property are stale
+    os.makedirs(os.path.join(OUT, "evidence"), exist_ok=True)
+    os.makedirs(os.path.join(OUT, "replays"), exist_ok=True)
+    for f in os.listdir(os.path.join(OUT, "replays")):  # witnesses of earlier runs of this property are stale
         if f.startswith(pid + "_"):
-            os.remove(os.path.join(VERIF, "replays", f))
+            os.remove(os.path.join(OUT, "replays", f))
 
     # ---- build
     try:
@@ -423,7 +426,7 @@ def run_check(pid, cfg, tier, seed, replay=None):
     replay_paths = []
     for key, w in new_viol:
         h = hashlib.sha1(key.encode()).hexdigest()[:10]
-        rp = os.path.join(VERIF, "replays", "%s_%s.json" % (pid, h))
+        rp = os.path.join(OUT, "replays", "%s_%s.json" % (pid, h))
         part = [p for p in cfg["parts"] if p["harness"] == w["part"]]
         doc = {"property": pid, "key": key, "tier": tier, "seed": seed, "harness": w["part"],
                "flavour": part[0].get("flavour", "asan") if part else "asan", "case": w["case"],
@@ -469,7 +472,7 @@ def run_check(pid, cfg, tier, seed, replay=None):
     extra = cfg.get("evidence_extra")
     if extra:
         evidence["coverage"].update(extra(all_events))
-    with open(os.path.join(VERIF, "evidence", pid + ".json"), "w") as f:
+    with open(os.path.join(OUT, "evidence", pid + ".json"), "w") as f:
         json.dump(evidence, f, indent=1)
     log("%s %s tier=%s seed=%d: cases=%d distinct=%d oracle-evals=%d failures=%d crashes=%d known=%d wall=%.0fs -> %s"
         % (pid, cfg["title"], tier, seed, nevals, len(sigs), sum(o["evaluated"] for o in oracles.values()),
